@@ -382,7 +382,9 @@ func (d *driver) fullSync(tag string) {
 	d.emit(M{"ev": "FullSync", "tag": tag})
 }
 
-func (d *driver) runTrace(id, length int) {
+// begin builds a fresh kernel (foreign state, optionally GLX-* garbage), the API objects of the cluster and a manager, writes
+// the Reset line and runs the start-up synchronisation.
+func (d *driver) begin(id int, c env.Cluster, garbage bool) {
 	d.k = env.NewKernel()
 	d.api = env.NewAPI()
 	var objs []string
@@ -396,14 +398,20 @@ func (d *driver) runTrace(id, length int) {
 	}
 	d.names = env.NameTable(objs)
 	d.preloadForeign()
-	d.c = d.randCluster()
+	d.c = c
 	d.api.Load(d.c)
 	d.newPM()
-	d.preloadGarbage()
+	if garbage {
+		d.preloadGarbage()
+	}
 	plen, unstorable := env.BlockPrefixLen()
 	d.emit(M{"ev": "Reset", "trace": id, "blocks": env.BlockMembers(), "plen": plen, "unstorable": unstorable, "addrs": addrNames()})
 	// galaxy synchronises when it starts (Run is the first thing its periodic loop does)
 	d.fullSync("start")
+}
+
+func (d *driver) runTrace(id, length int) {
+	d.begin(id, d.randCluster(), true)
 	down := false
 	for i := 0; i < length; i++ {
 		switch r := d.rng.Intn(20); {
@@ -458,6 +466,7 @@ func main() {
 	n := flag.Int("n", 20, "number of traces")
 	length := flag.Int("len", 12, "actions per trace")
 	out := flag.String("out", "", "output ndjson file")
+	schedFile := flag.String("schedules", "", "JSON file with model behaviours (MC_PolicyManager hist) to replay instead of random histories")
 	flag.Parse()
 	_ = os.Setenv("MY_NODE_NAME", env.ThisNode)
 	wr := os.Stdout
@@ -471,6 +480,14 @@ func main() {
 		wr = f
 	}
 	d := &driver{rng: rand.New(rand.NewSource(*seed)), out: json.NewEncoder(wr)}
+	if *schedFile != "" {
+		scheds := loadPolSchedules(*schedFile)
+		for i, s := range scheds {
+			d.replay(i, s)
+		}
+		fmt.Fprintf(os.Stderr, "poldrive: replayed %d schedules, %d lines\n", len(scheds), d.lines)
+		return
+	}
 	for i := 0; i < *n; i++ {
 		d.faults = 1
 		d.runTrace(i, *length)
